@@ -320,9 +320,26 @@ def _contains_restore(m, r, h, depth=0, seen=None) -> bool:
         if r.role_of_call(h, c_) == "set_shape_memo":
             return True
         t = m.resolve_call(h, c_)
-        if t.kind == "func" and t.target.module.short != "_storage" and _contains_restore(m, r, t.target, depth + 1, seen):
+        if t.kind == "func" and not _is_storage_primitive(r, t.target) and _contains_restore(m, r, t.target, depth + 1, seen):
             return True
     return False
+
+
+def _is_storage_primitive(r, fn) -> bool:
+    """The role functions themselves (push/pop/get/set and what they delegate to) are not 'helpers that
+    restore': calls of them are recognised by role."""
+    prim = getattr(r, "_prim_cache", None)
+    if prim is None:
+        prim = set()
+        for role in ("push", "pop", "get", "set"):
+            try:
+                f0 = getattr(r, role)
+            except AnalysisError:
+                continue
+            prim.add(f0.qualname)
+            prim.add(c05.follow_delegate(r.m, f0).qualname)
+        r._prim_cache = prim
+    return fn.qualname in prim
 
 
 def restore_summary(m, r, h, depth=0) -> str:
@@ -340,7 +357,7 @@ def restore_summary(m, r, h, depth=0) -> str:
                 rnodes.add(n.id)
             else:
                 t = m.resolve_call(h, c_)
-                if t.kind == "func" and t.target is not h and t.target.module.short != "_storage" and restore_summary(m, r, t.target, depth + 1) == "always":
+                if t.kind == "func" and t.target is not h and not _is_storage_primitive(r, t.target) and restore_summary(m, r, t.target, depth + 1) == "always":
                     rnodes.add(n.id)
 
     def transfer(node, st, kind, succ):
@@ -421,9 +438,9 @@ def cm_restore_summary(m, r, f, expr):
                     rnodes.add(n.id)
                 else:
                     t = m.resolve_call(ex_, c_)
-                    if t.kind == "func" and t.target.module.short != "_storage" and restore_summary(m, r, t.target) == "always":
+                    if t.kind == "func" and not _is_storage_primitive(r, t.target) and restore_summary(m, r, t.target) == "always":
                         rnodes.add(n.id)
-                    elif t.kind == "func" and t.target.module.short != "_storage" and restore_summary(m, r, t.target) == "sometimes":
+                    elif t.kind == "func" and not _is_storage_primitive(r, t.target) and restore_summary(m, r, t.target) == "sometimes":
                         return {"exc": None, "normal": None, "fn": ex_}
 
         def case_of(test, truth):
@@ -500,7 +517,7 @@ def _rollback_typestate(m, r, f, g, muts, restore_calls):
     helper_restores = {}  # id(call) -> 'always' | 'sometimes'
     for c_ in f_calls(f):
         t_ = m.resolve_call(f, c_)
-        if t_.kind == "func" and t_.target.module.short != "_storage" and t_.target is not f and r.role_of_call(f, c_) != "set_shape_memo":
+        if t_.kind == "func" and not _is_storage_primitive(r, t_.target) and t_.target is not f and r.role_of_call(f, c_) != "set_shape_memo":
             sm = restore_summary(m, r, t_.target)
             if sm != "never":
                 helper_restores[id(c_)] = sm
@@ -717,13 +734,35 @@ def _verify_carried_snapshots(ctx, m, r, f, site, g, dom, mut_nodes, carriers):
     attributes (or locals) that were bound to fresh copies of the memos the holder was given, and
     the holder must be created before the first mutating call, from the live memos."""
     holders = []  # (function holding the restore call, how the holder is created in f)
+    checked = 0
     for key, val in carriers:
         if key == "helper":
             t = m.resolve_call(f, val)
-            holders.append(t.target)
+            h_ = t.target
+            # a plain function `restore(backup)` that unpacks its parameter and hands the four parts, in
+            # order, to the restore primitive: the argument at the call site is the snapshot tuple
+            if h_.cls is None and len(h_.params) == 1 and len(val.args) == 1 and isinstance(val.args[0], ast.Name) and not val.keywords:
+                p_ = h_.params[0]
+                rcs = [c_ for c_ in f_calls(h_) if r.role_of_call(h_, c_) == "set_shape_memo"]
+                names = None
+                for n in walk_scope(h_.node):
+                    if isinstance(n, ast.Assign) and isinstance(n.value, ast.Name) and n.value.id == p_ and isinstance(n.targets[0], (ast.Tuple, ast.List)) and len(n.targets[0].elts) == 4:
+                        names = [e.id if isinstance(e, ast.Name) else None for e in n.targets[0].elts]
+                ok_fwd = len(rcs) == 1 and not rcs[0].keywords and (
+                    (names and [getattr(a, "id", None) for a in rcs[0].args] == names) or
+                    (len(rcs[0].args) == 1 and isinstance(rcs[0].args[0], ast.Starred) and norm(rcs[0].args[0].value) == p_) or
+                    (len(rcs[0].args) == 1 and isinstance(rcs[0].args[0], ast.Name) and rcs[0].args[0].id == p_))
+                if ok_fwd:
+                    _check_starred_snapshot(ctx, m, f, site, val, val.args[0].id, g, dom, mut_nodes)
+                    checked += 1
+                    continue
+                if len(rcs) == 1 and names and sorted(x for x in (getattr(a, "id", None) for a in rcs[0].args) if x) == sorted(names):
+                    ctx.bad("C04.3", h_, rcs[0], f"`{h_.name}` hands the parts of the snapshot to the restore in a different order than it unpacked them: the memos would be restored into the wrong slots")
+                    checked += 1
+                    continue
+            holders.append(h_)
         else:
             holders.append(val["fn"])
-    checked = 0
     for h in holders:
         # the function that actually calls the restore primitive (h itself or a method it calls)
         stack, seen, sites_ = [h], set(), []
@@ -737,7 +776,7 @@ def _verify_carried_snapshots(ctx, m, r, f, site, g, dom, mut_nodes, carriers):
                     sites_.append((x, c_))
                 else:
                     t = m.resolve_call(x, c_)
-                    if t.kind == "func" and t.target.module.short != "_storage":
+                    if t.kind == "func" and not _is_storage_primitive(r, t.target):
                         stack.append(t.target)
         for x, rc in sites_:
             if x.cls is None or not x.params:
